@@ -874,7 +874,7 @@ func (vc *VC) applyModifiesB(st *State, spec *FuncSpec, env *Env, guard string, 
 			continue
 		}
 		parts := splitSortArgs(t.sort)
-		f := vc.fresh("hv", parts[1])
+		f := vc.havocValue(parts[1])
 		vc.setAt(st, t.name, t.sort, t.idx, f)
 	}
 }
@@ -1165,6 +1165,22 @@ func (vc *VC) rangeFuncCall(st *State, v *ssa.Call, seq Term, mc *ssa.MakeClosur
 	mkEnv := func(s *State, k string) *Env {
 		e := vc.selfEnv(s, nil)
 		vc.bindLocalsAt(e, vc.curBlock, true)
+		for _, lj := range vc.loops {
+			if !lj.blocks[vc.curBlock] {
+				continue
+			}
+			for _, in := range lj.header.Instrs {
+				phi, ok := in.(*ssa.Phi)
+				if !ok {
+					break
+				}
+				if phi.Comment == "rangeindex" {
+					if t, ok := vc.vals[phi]; ok {
+						e.vars[fmt.Sprintf("$k%d", lj.ordinal)] = Term{S: sx("+", t.S, "1"), Sort: "Int", T: types.Typ[types.Int]}
+					}
+				}
+			}
+		}
 		e.vars["$k"] = Term{S: k, Sort: "Int", T: types.Typ[types.Int]}
 		e.vars["$n"] = Term{S: n, Sort: "Int", T: types.Typ[types.Int]}
 		e.vars["$seq"] = seq
@@ -1221,7 +1237,7 @@ func (vc *VC) rangeFuncCall(st *State, v *ssa.Call, seq Term, mc *ssa.MakeClosur
 				dynamic = append(dynamic, t)
 			default:
 				parts := splitSortArgs(t.sort)
-				vc.setAt(s, t.name, t.sort, t.idx, vc.fresh("hv", parts[1]))
+				vc.setAt(s, t.name, t.sort, t.idx, vc.havocValue(parts[1]))
 			}
 		}
 		for _, t := range dynamic {
@@ -1373,4 +1389,16 @@ func (vc *VC) existedPredicate(prefix string) string {
 		vc.assume(n)
 	}
 	return p
+}
+
+// havocValue: an arbitrary value of the given sort; strings and slices are well formed (every Go value is)
+func (vc *VC) havocValue(sortName string) string {
+	f := vc.fresh("hv", sortName)
+	switch sortName {
+	case "Slice":
+		vc.assume(sx("slice_wf", f))
+	case "Str":
+		vc.assume(sx("str_wf", f))
+	}
+	return f
 }
